@@ -36,8 +36,10 @@ class Server:
     def sendall(self, b):
         self._on_pdu(b)
 
-    def recv_into(self, view):
-        k = min(len(view), len(self.pending) - self.pos)
+    def recv_into(self, view, nbytes=0, flags=0):
+        # socket.recv_into contract: nbytes == 0 means "up to len(buffer)"
+        want = nbytes if nbytes else len(view)
+        k = min(want, len(self.pending) - self.pos)
         if k:
             view[:k] = self.pending[self.pos : self.pos + k]
         self.pos += k
@@ -136,6 +138,7 @@ def handshake(c, nlegs, final_empty, flavour):
         client._wrap_sync = wrap_sync
         ack = c.call_async(client.bind, CTX)
     # ---- bind() returned normally: every server turn must have been a proper ack
+    c.check(truth(prov.complete), "bind returns normally only with a complete security context")
     c.check(all(t["kind"] == 0 for t in srv.turns), "a rejection or unexpected PDU was ignored")
     sent = [c.call(_pdu.PDU.unpack, V.SymByteArray(list(V.seq_items(b))) if c.symbolic else bytearray(b)) for b in srv.sent]
     toks = [t for t in prov.out_tokens]
